@@ -198,6 +198,18 @@ def main(tier, seed, replay=None):
     with ProcessPoolExecutor(max_workers=14) as ex:
         traces = [t for t in ex.map(program, jobs, chunksize=4) if t]
     nev, kinds, rej = report_traces(rep, traces)
+    if not replay:
+        from vlib import negative_controls
+        def c_val(e):
+            if e['op'].startswith('m_') and 'val' in e and any(e['val']):
+                e['val'] = [e['val'][0] + 1] + list(e['val'][1:])
+                return True
+        def c_ent(e):
+            if e['op'].startswith('m_') and e.get('out', 'ok') == 'ok' and 'obs' in e and e['obs']['ent']:
+                x = e['obs']['ent'][0][1]
+                x[0] += 1
+                return True
+        rep.cov['parts']['negative_controls_rejected'] = negative_controls('TraceTensor', 'TraceTensor.cfg', traces, [('overlap / expectation value + 1', c_val), ('element of an MPS expression + 1', c_ent)], timeout=900, mem='3g')
     rep.cov['traces_validated_against_impl'] = len(traces)
     rep.cov['evaluations'] = nev
     rep.cov['distinct_nontrivial'] = sum(1 for t in traces for e in t['ev'] if e['op'] != 'init' and (('obs' in e and e['obs']['ent']) or ('val' in e and any(e['val']))))
